@@ -102,9 +102,18 @@ def call(f, *a, limit=0.0):
             signal.signal(signal.SIGALRM, old)
 
 
+LIMIT = 1 << 30
+
+
 def ev(op, x=(), y=(), z=(), n=0, out=(), out2=(), exc="", law=""):
-    return {"op": op, "law": law, "x": list(x), "y": list(y), "z": list(z), "n": int(n), "out": list(out), "out2": list(out2),
-            "exc": exc}
+    """One recorded call.  TLC integers are 32 bit: a result beyond 2^30 (only a faulty implementation produces one, the inputs
+    are chosen so that every correct result is smaller) is not sent as a number but flagged with ovf = 1."""
+    out, out2 = [int(v) for v in out], [int(v) for v in out2]
+    ovf = any(abs(v) >= LIMIT for v in out + out2)
+    if ovf:
+        out, out2 = [], []
+    return {"op": op, "law": law, "x": list(x), "y": list(y), "z": list(z), "n": int(n), "out": out, "out2": out2,
+            "exc": exc, "ovf": 1 if ovf else 0}
 
 
 class Agg:
@@ -402,9 +411,9 @@ def nonfunctional_events(rng, tier, stats):
     evs = []
     b2 = range(-3, 4) if tier == "quick" else range(-5, 6)
     S = [ZSqrtTwo(a, b) for a in b2 for b in b2]
-    for x in S:
-        for y in S:
-            if y.a or y.b:
+    for ix, x in enumerate(S):
+        for iy, y in enumerate(S):
+            if (y.a or y.b) and (tier != "quick" or (ix + iy) % 2 == 0):
                 v, e = call(lambda: x % y, limit=2)
                 evs.append(ev("s2.mod", x=s2(x), y=s2(y), exc=e, out=s2(v) if e == "" else []))
         v, e = call(x.sqrt)
@@ -567,7 +576,7 @@ def number_theory_events(rng, tier, stats):
         evs.append(ev("nt.primes", x=[n, _isqrt_bound(n)], out=[1 if (e == "" and v) else 0 if e == "" else 2], exc=""))
     stats["primality_big_numbers"] = len(cands)
     # modular square roots: every residue for small primes, selected residues for larger ones
-    small = _small_primes(120 if tier == "quick" else 400)
+    small = _small_primes(90 if tier == "quick" else 400)
     for p in small:
         for a in list(range(p)) + [-1, -2]:
             v, e = call(ns._sqrt_modulo_p, a, p, limit=2)
@@ -590,7 +599,7 @@ def number_theory_events(rng, tier, stats):
         if wit:
             stats["dioph_solvable"] += 1
             stats["dioph_solvable_solved"] += 1 if e == "" else 0
-    amax = 40 if tier == "quick" else 120
+    amax = 32 if tier == "quick" else 120
     for a in range(0, amax + 1):
         for b in range(-int(a / math.sqrt(2)) - 1, int(a / math.sqrt(2)) + 2):
             dioph([a, b], [])
@@ -700,12 +709,15 @@ def run(tier, seed):
         replay_om(r, hdr, agg, stats, nontriv)
     deferred = []
     replay_mat(rows["mat"], hdr, agg, stats, nontriv, deferred)
-    # negative control of the comparator: a corrupted expected product must be flagged
-    tmp, bad = Agg(), json.loads(json.dumps(next(r for r in rows["om"] if r["x"] == [1, 2, -1, 2])))
-    bad["mul"][50][2] += 1
-    replay_om(bad, hdr, tmp, Counter(), set())
-    if list(tmp.d) != ["replay:om.mul"] or tmp.d["replay:om.mul"][0] != 1:
-        raise lib.MachineryError(f"negative control of the replay comparator not rejected exactly once: {list(tmp.d)}")
+    # negative control of the comparator (independent of the implementation): the reference value of a product is accepted
+    # against itself and rejected against a copy with one coefficient changed
+    tmp, row = Agg(), next(r for r in rows["om"] if r["x"] == [1, 2, -1, 2])
+    good = list(row["mul"][50])
+    bad = list(good)
+    bad[2] += 1
+    if not _cmp(tmp, Counter(), "om.mul", good, "", list(good), "control", []) or _cmp(tmp, Counter(), "om.mul", good, "", bad, "control", []) \
+            or list(tmp.d) != ["replay:om.mul"]:
+        raise lib.MachineryError(f"negative control of the replay comparator failed: {list(tmp.d)}")
     n_neg = 1
     t2 = time.time()
 
@@ -752,10 +764,11 @@ def run(tier, seed):
                 agg.add(clause, f"{e['op']}{('.' + e['law']) if e['law'] else ''}: x={e['x']} y={e['y']} z={e['z']} n={e['n']} -> "
                                 f"{e['exc'] or e['out']}{(' | ' + str(e['out2'])) if e['out2'] else ''}" + (f" [n = {info}]" if info else ""),
                         {"event": e, "clause": clause, "info": info})
-    # vacuity
-    if stats["dioph_solved"] < 50 or stats["sqrtmod_root"] < 100 or stats["so3_hom"] < 20 or stats["s2_roots_found"] < 20:
+    # vacuity (only when no ring / number-theory violation explains it: a faulty component starves the calls that depend on it)
+    explained = any(not k.startswith(("dy.", "replay:dy.", "so3.", "replay:so3.")) for k in agg.d)
+    if not explained and (stats["dioph_solved"] < 50 or stats["sqrtmod_root"] < 100 or stats["so3_hom"] < 20 or stats["s2_roots_found"] < 20):
         raise lib.MachineryError(f"vacuous run: {dict(stats)}")
-    if stats["dioph_solvable"] and stats["dioph_solvable_solved"] * 2 < stats["dioph_solvable"]:
+    if not explained and stats["dioph_solvable"] and stats["dioph_solvable_solved"] * 2 < stats["dioph_solvable"]:
         raise lib.MachineryError(f"vacuous run: the solver solved only {stats['dioph_solvable_solved']} of {stats['dioph_solvable']} instances "
                                  "that have a solution by construction (soundness of returned solutions cannot be judged)")
     ops = Counter(e["op"] for e in events)
